@@ -64,6 +64,9 @@ class World(SessionWorld):
             beh[name] = ch.pick(("return", "raise", "pending"), "beh:" + name, (7, 1.2, 1.2))
         for name in ("connect", "join", "ready", "leave", "disconnect"):
             beh["obs:" + name] = ch.pick(("return", "raise", "pending"), "obs:" + name, (8, 1, 1))
+        # user code may call back into the session from inside a callback, before it calls up
+        beh["reenter:onLeave"] = ch.pick((None, "leave", "disconnect"), "reenter:onLeave", (6, 2, 1))
+        beh["reenter:onJoin"] = ch.pick((None, "leave"), "reenter:onJoin", (7, 1))
         cfg["beh"] = beh
         self.t = StubTransport(self, cfg["serializer"], cfg["send_after_close"])
         world = self
@@ -74,6 +77,14 @@ class World(SessionWorld):
                 world.cbs.append(name)
                 world.run.log("user-cb", name)
                 b = beh[name]
+                re = beh.get("reenter:" + name)
+                if re:
+                    # e.g. an onLeave() that makes sure the session is being left, whoever started it
+                    world.run.probe("reentrant-%s-in-%s" % (re, name))
+                    try:
+                        getattr(world.session, re)()
+                    except Exception as e:  # noqa
+                        world.run.log("reentrant-api-raised", name, re, type(e).__name__)
                 # the override calls up first (the library's own work for this callback happens),
                 # then the user's own code fails or keeps the callback pending
                 res = sup(*a, **k)
